@@ -193,10 +193,11 @@ class Ledger(object):
         """Returns the Exec for this offer (always, even when unjustified) ."""
         tags = []
         if task in lang.ENGINE_COMMANDS or task not in self.p["tasks"]:
+            kf = "KF-rerun-default-offers-fail-command" if (self.reruns and task == "fail") else None
+            tg = ["command_offered"] + (["rerun_default_after_fail_command"] if kf else [])
+            self.report("C17", "only_requested", "engine command %r offered as a task" % task, tags=tg, kf=kf)
             self.report("C01", "justified", "engine command or unknown task %r offered as a task" % task,
-                        tags=["command_offered"])
-            self.report("C17", "only_requested", "engine command %r offered as a task" % task,
-                        tags=["command_offered"])
+                        tags=tg, kf=kf)
             x = Exec(len(self.execs), task, route, 1, 1, "bogus")
             x.ctx_offered = offered_vals
             x.ref = RefCtx(dict(self.root.vals), self.root.hist, [0])
@@ -204,21 +205,33 @@ class Ledger(object):
             return x
         live = self.live_exec(task, route)
         c = self.match(task, route, offered_vals)
+        kf = None
+        b = self.barriers.get((task, route))
+        if c is None and b is not None and b["fired"] and b["late"]:
+            # precise signature of the known finding: a partial join (N < inbound) whose barrier was
+            # already consumed is offered again after a further inbound branch arrived
+            tags = ["join_partial", "arrival_after_join_started"]
+            kf = "KF-join-partial-late-arrival"
+        elif c is None and task in self.req and self.cyc.get(task) and self.visits.get((task, route), 0) >= 1:
+            # precise signature: a join inside a loop offered on a later iteration before its
+            # barrier is satisfied again (the engine counts the previous iteration's records)
+            tags = ["join_in_loop"]
+            kf = "KF-join-in-loop-stale-arrivals"
         if live is not None:
             # a with-items task is legitimately offered again (next items) while it is running
-            if live.items is not None and c is None:
+            if live.items is not None and c is None and kf is None:
                 return live
             if c is None:
                 self.report("C01", "once", "task %s@%s offered again while its execution %s is live"
-                            % (task, route, live.key()))
+                            % (task, route, live.key()), tags=tags, kf=kf)
         if c is None:
-            b = self.barriers.get((task, route))
-            kf = None
-            if b is not None and b["fired"] and b["late"]:
-                tags = ["join_partial", "arrival_after_join_started"]
-                kf = "KF-join-partial-late-arrival"
+            if kf == "KF-join-partial-late-arrival":
                 self.report("C07", "runs_once", "join %s@%s offered again after a late arrival (barrier already "
                             "consumed)" % (task, route), tags=tags, kf=kf)
+            elif kf is not None:
+                self.report("C07", "barrier_satisfied", "join %s@%s in a loop offered on a later iteration with %d of "
+                            "%d inbound tasks arrived in this iteration" % (task, route, len(b["srcs"]) if b else 0,
+                                                                           self.req[task]), tags=tags, kf=kf)
             elif task in self.req:
                 self.report("C07", "barrier_satisfied", "join %s@%s offered but the ledger holds %d of %d "
                             "distinct satisfied inbound tasks" % (task, route, len(b["srcs"]) if b else 0,
